@@ -51,10 +51,13 @@ const (
 	opDelMain  = 13
 	opDelClaim = 14
 	opGetID    = 15
+	opAdmit    = 16
+	opRelAdm   = 17
 	opOther    = 20
 )
 
 const claimPrefix = "tunnox:runtime:conncode:claim:"
+const admitPrefix = "tunnox:runtime:conncode:admit:"
 
 var errInjected = errors.New("verif: injected storage failure")
 
@@ -135,6 +138,8 @@ func (s *gatedStore) Delete(key string) error {
 		s.park(opDelMain)
 	case strings.HasPrefix(key, claimPrefix):
 		s.park(opDelClaim)
+	case strings.HasPrefix(key, admitPrefix):
+		s.park(opRelAdm)
 	default:
 		s.park(opOther)
 	}
@@ -149,6 +154,8 @@ func (s *gatedStore) Exists(key string) (bool, error) {
 func (s *gatedStore) SetNX(key string, value any, ttl time.Duration) (bool, error) {
 	if strings.HasPrefix(key, claimPrefix) {
 		s.park(opClaim)
+	} else if strings.HasPrefix(key, admitPrefix) {
+		s.park(opAdmit)
 	} else {
 		s.park(opOther)
 	}
@@ -255,6 +262,8 @@ type viol struct {
 type caseOut struct {
 	Claim     bool     `json:"variant_claim"`
 	Cleanup   bool     `json:"variant_cleanup"`
+	Admit     bool     `json:"variant_admit"`
+	AdmitKeys int      `json:"admitkeys"` // admission markers of the scope "mappings" left in storage
 	Threads   []thrOut `json:"threads"`
 	Sched     []int    `json:"sched"`
 	Mains     [][]int64 `json:"mains"`  // [owner, listen, target, taddr index(-1 other), laddr index(-1 other)] sorted
@@ -312,6 +321,10 @@ func newStack(ctx context.Context, st storage.Storage, raw storage.Storage, qmax
 	return k
 }
 
+func hasAdmit() bool {
+	return reflect.ValueOf(&repos.ConnectionCodeRepository{}).MethodByName("AcquireAdmission").IsValid()
+}
+
 func hasClaim() bool {
 	return reflect.ValueOf(&repos.ConnectionCodeRepository{}).MethodByName("Claim").IsValid()
 }
@@ -352,7 +365,7 @@ func idxOf(xs []string, s string) int64 {
 }
 
 func runSched(c caseIn) *caseOut {
-	out := &caseOut{Claim: hasClaim(), Cleanup: hasCleanup(), Viol: []viol{}, Sched: []int{}}
+	out := &caseOut{Claim: hasClaim(), Cleanup: hasCleanup(), Admit: hasAdmit(), Viol: []viol{}, Sched: []int{}}
 	ctx, cancel := context.WithCancel(context.Background())
 	defer cancel()
 	raw := memory.New(ctx)
@@ -604,6 +617,9 @@ func runSched(c caseIn) *caseOut {
 	out.ByCode = rec(constants.KeyPrefixRuntimeConnectionCodeByCode + cc.Code)
 	out.ByID = rec(constants.KeyPrefixRuntimeConnectionCodeByID + cc.ID)
 	out.ClaimSet, _ = raw.Exists(claimPrefix + cc.Code)
+	if am, err := raw.QueryByPrefix(admitPrefix+"mappings:", 0); err == nil {
+		out.AdmitKeys = len(am)
+	}
 
 	for i, t := range c.Threads {
 		to := thrOut{Res: 0, Map: -1, Trace: []int{}, Pos: []int{}, First: first[i], Done: doneAt[i]}
@@ -721,6 +737,9 @@ func runSched(c caseIn) *caseOut {
 			}
 		}
 	}
+	if out.AdmitKeys != 0 {
+		add("admission-marker-left", "%d per-client admission marker(s) are still in storage after every call has returned (that client cannot activate anything for 30 s)", out.AdmitKeys)
+	}
 	// revocation against activation: a revocation that returned nil after writing the revoked record (it performed
 	// the Set of the by-id record; a nil return through Update's delete branch on an already expired code
 	// writes nothing and is not counted) and an activation of the same code must never both succeed
@@ -792,6 +811,8 @@ func gen() {
 	fmt.Printf("Definition DefaultMaxActiveMappingsPerClient : nat := %d.\n", cfg.MaxActiveMappingsPerClient)
 	fmt.Printf("Definition impl_use_claim : bool := %v.\n", hasClaim())
 	fmt.Printf("Definition impl_create_cleanup : bool := %v.\n", hasCleanup())
+	fmt.Printf("Definition impl_use_admit : bool := %v.\n", hasAdmit())
+	fmt.Printf("Definition key_admit : list N := %s.\n", coqBytes(admitPrefix))
 	fmt.Printf("Definition key_code : list N := %s.\n", coqBytes(constants.KeyPrefixRuntimeConnectionCodeByCode))
 	fmt.Printf("Definition key_id : list N := %s.\n", coqBytes(constants.KeyPrefixRuntimeConnectionCodeByID))
 	fmt.Printf("Definition key_claim : list N := %s.\n", coqBytes(claimPrefix))
@@ -802,7 +823,7 @@ func gen() {
 	fmt.Printf("Definition solo_activate_trace : list nat := %s.\n", coqNatList(soloTrace("act", -1)))
 	fmt.Printf("Definition solo_revoke_trace : list nat := %s.\n", coqNatList(soloTrace("rev", -1)))
 	var ft []string
-	for k := 0; k < 9; k++ {
+	for k := 0; k < 11; k++ {
 		ft = append(ft, coqNatList(soloTrace("act", k)))
 	}
 	fmt.Printf("Definition solo_activate_fault_traces : list (list nat) := [%s].\n", strings.Join(ft, "; "))
